@@ -80,6 +80,7 @@ def run(tier, seed):
             for _ in range(nev):
                 S, rec, ret = DP.run_once(c, {'tol': -1.0, 'min': 1, 'max': mx}, checks=False)
                 nps = [e['np'] for e in rec.events if e['k'] == 'E']
+                errs = [e['_err'] for e in rec.events if e['k'] == 'E']
                 mx = nps[-1]
             final_lims = {'tol': -1.0, 'min': 1, 'max': nps[-2]}      # uninterrupted run: stops at evaluation len(nps)
             S0, rec0, ret0 = DP.run_once(c, final_lims, checks=False)
@@ -88,11 +89,16 @@ def run(tier, seed):
             rep.exclude('%s: probe timed out' % name)
             continue
         for j in range(len(nps) - 1):      # interrupt right after evaluation j+1
-            for mode in ('continue', 'save-restore'):
+            for mode in ('continue', 'save-restore', 'continue-tol0'):
                 lims = {'tol': -1.0, 'min': 1, 'max': (nps[j] - 1) if j > 0 else 0}
+                if mode == 'continue-tol0':
+                    # first phase stopped by a positive tolerance, continued with tolerance 0 (never met) and the final budget
+                    if not errs[j] or errs[j] <= 0:
+                        continue
+                    lims = {'tol': float(errs[j]), 'min': 1, 'max': None}
                 case = '%s interrupted after evaluation %d, %s' % (name, j + 1, mode)
                 try:
-                    if mode == 'continue':
+                    if mode in ('continue', 'continue-tol0'):
                         S, rec, ret = DP.run_once(c, lims, checks=False)
                         events = rec.events + [DP.ret_event(S, rec, ret, c, lims, with_c05=False)]
                         restored_same = True
@@ -119,10 +125,11 @@ def run(tier, seed):
                         restored_same = (before is None or (after is not None and np.array_equal(before, after))) and (tr2, lm2) == stb['structure'] \
                             and sch2 == stb['scheme'] and int(combi2.get_total_num_points()) == stb['points']
                     events.append({'k': 'Resume', 'minE': 1, 'maxE': int(final_lims['max'])})
-                    if mode == 'continue':
-                        rec.tol = -1.0
+                    cont_tol = 0 if mode == 'continue-tol0' else -1.0
+                    if mode in ('continue', 'continue-tol0'):
+                        rec.tol = cont_tol
                     with impl.quiet(), impl.watchdog(240):
-                        ret2 = S['combi'].continue_adaptive_refinement(tol=-1.0, max_evaluations=final_lims['max'], min_evaluations=1)
+                        ret2 = S['combi'].continue_adaptive_refinement(tol=cont_tol, max_evaluations=final_lims['max'], min_evaluations=1)
                     F = final_state(S, ret2)
                 except impl.Timeout:
                     rep.exclude(case + ': timeout')
